@@ -536,6 +536,21 @@ def canonical_shapes(tree, modname):
     loops_to_comprehensions(tree, [], modname)
 
 
+_FRESH_CALLS = {'np.array', 'np.zeros', 'np.ones', 'np.empty', 'np.full', 'np.sqrt', 'np.sum', 'np.diff', 'np.abs', 'np.exp',
+                'np.arange', 'np.zeros_like', 'np.ones_like', 'np.copy', 'np.hypot', 'np.cos', 'np.sin'}
+
+
+def _fresh_value(v):
+    """An expression whose value is certainly a new object (so that `x = v; x op= w` and `x = v op w` are the same): arithmetic,
+    or a constructor.  `np.asarray(a)`, `a.reshape(...)`, `a[...]` may alias `a`: an in-place update of them is an effect."""
+    if isinstance(v, ast.BinOp):
+        return True
+    if isinstance(v, ast.Call):
+        fn = ast.unparse(v.func)
+        return fn in _FRESH_CALLS or fn.endswith('.copy')
+    return False
+
+
 def fold_augmented(tree):
     """`x = A` ... `x op= B` in one block, x untouched in between and B's inputs not written in between -> `x = A op B`."""
     for parent in ast.walk(tree):
@@ -555,7 +570,7 @@ def fold_augmented(tree):
                         while i >= 0:
                             a = blk[i]
                             if isinstance(a, ast.Assign) and len(a.targets) == 1 and isinstance(a.targets[0], ast.Name) \
-                                    and a.targets[0].id == x and isinstance(a.value, (ast.BinOp, ast.Call)):
+                                    and a.targets[0].id == x and _fresh_value(a.value):
                                 ok = True
                                 break
                             if any(isinstance(n, ast.Name) and n.id == x for n in ast.walk(a)) \
